@@ -573,38 +573,91 @@ def showCaller (c : Caller) : String :=
   s!"some cfa={f c.cfa} ra={f c.ra} regs:" ++
     joinWith "," (regs.map fun (n, v) => s!"{showName n}={v.toNat}")
 
+/-- The rules text as the symbol-file parser stores it: the `space1` after the last hex field
+    swallows every leading space/tab of the rest of the line (parser.rs `stack_cfi`,
+    `stack_cfi_init`); the request carries the text as written in the file. -/
+def storedRules (text : Bytes) : Bytes := text.dropWhile fun b => b == 0x20 || b == 0x09
+
+/-- the fields shared by `walk` and `stack` requests -/
+def parseWalkArgs (base instr ptr init adds known al callee fwd mem : String) :
+    Option (CfiRec × Nat × Walker) := do
+  let base ← (stripKey "base:" base).bind optNat
+  let instr ← (stripKey "instr:" instr).bind optNat
+  let ptr ← (stripKey "ptr:" ptr).bind optNat
+  let init ← stripKey "init:" init
+  let (ia, isz, irules) ← match init.splitOn ":" with
+    | [a, s, h] => match optNat a, optNat s, unhex h with
+      | some a, some s, some h => some (a, s, h)
+      | _, _, _ => none
+    | _ => none
+  let adds ← (stripKey "adds:" adds).bind parseAdds
+  let known ← (stripKey "known:" known).bind parseNames
+  let al ← (stripKey "alias:" al).bind parseAlias
+  let callee ← ((stripKey "callee:" callee).bind parsePairs).bind u64s
+  let fwd ← ((stripKey "fwd:" fwd).bind parsePairs).bind u64s
+  let mem ← stripKey "mem:" mem
+  let (mb, mbytes) ← match mem.splitOn ":" with
+    | [b, h] => match optNat b, unhex h with
+      | some b, some h => some (b, h)
+      | _, _ => none
+    | _ => none
+  if !(ptr == 4 || ptr == 8) || instr > U64MAX || base > U64MAX || ia > U64MAX || isz > U32MAX
+      || mb > U64MAX || adds.any (fun a => a.1 > U64MAX) then none else
+  some (⟨ia, isz, storedRules irules, adds.map fun (a, t) => (a, storedRules t)⟩, base, ⟨instr, ptr, known, al, callee, mb, mbytes, fwd⟩)
+
+/-- What the per-architecture glue of minidump-unwind (`get_caller_by_cfi`, `get_caller_frame`,
+    the stack-pointer test of `walk_stack`) does around `walk_frame`, as far as the `stack` cases
+    observe it: the callee's sp must lie in the stack memory; ARM64 strips pointer-authentication
+    bits from pc/lr/fp; a caller whose pc is below 4096 or whose sp did not grow is dropped
+    (ARM: an equal sp is allowed for the context frame). -/
+def stackGlue (w : Walker) (sp : Nat) (leaf : Bool) (strip : Option UInt64) (r : Option Caller) :
+    Option Caller :=
+  if w.mem.isEmpty || w.memBase + w.mem.length - 1 > U64MAX || sp < w.memBase
+      || sp > w.memBase + w.mem.length - 1 then none else
+  match r with
+  | none => none
+  | some c =>
+    let c : Caller := match strip with
+      | none => c
+      | some m => { cfa := c.cfa, ra := c.ra.map (· &&& m),
+                    regs := c.regs.map fun (n, v) =>
+                      if n = nameOf "fp" || n = nameOf "lr" then (n, v &&& m) else (n, v) }
+    match c.cfa, c.ra with
+    | some cfa, some ra =>
+      if ra.toNat < 4096 then none
+      else if cfa.toNat ≤ sp && !(leaf && cfa.toNat == sp) then none
+      else some c
+    | _, _ => none
+
 def handle (_engine : String) (args : List String) : String :=
   match args with
   | ["walk", base, instr, ptr, init, adds, known, al, callee, fwd, mem] =>
-    let r : Option String := do
-      let base ← (stripKey "base:" base).bind optNat
-      let instr ← (stripKey "instr:" instr).bind optNat
-      let ptr ← (stripKey "ptr:" ptr).bind optNat
-      let init ← stripKey "init:" init
-      let (ia, isz, irules) ← match init.splitOn ":" with
-        | [a, s, h] => match optNat a, optNat s, unhex h with
-          | some a, some s, some h => some (a, s, h)
-          | _, _, _ => none
-        | _ => none
-      let adds ← (stripKey "adds:" adds).bind parseAdds
-      let known ← (stripKey "known:" known).bind parseNames
-      let al ← (stripKey "alias:" al).bind parseAlias
-      let callee ← ((stripKey "callee:" callee).bind parsePairs).bind u64s
-      let fwd ← ((stripKey "fwd:" fwd).bind parsePairs).bind u64s
-      let mem ← stripKey "mem:" mem
-      let (mb, mbytes) ← match mem.splitOn ":" with
-        | [b, h] => match optNat b, unhex h with
-          | some b, some h => some (b, h)
-          | _, _ => none
-        | _ => none
-      if !(ptr == 4 || ptr == 8) || instr > U64MAX || base > U64MAX || ia > U64MAX || isz > U32MAX
-          || mb > U64MAX || adds.any (fun a => a.1 > U64MAX) then none else
-      let w : Walker := ⟨instr, ptr, known, al, callee, mb, mbytes, fwd⟩
-      match walkFrameO ⟨ia, isz, irules, adds⟩ base w with
-      | .panic _ => some "PANIC"
-      | .ok none => some "none"
-      | .ok (some c) => some (showCaller c)
-    r.getD "bad-op"
+    match parseWalkArgs base instr ptr init adds known al callee fwd mem with
+    | none => "bad-op"
+    | some (r, base, w) =>
+      match walkFrameO r base w with
+      | .panic _ => "PANIC"
+      | .ok none => "none"
+      | .ok (some c) => showCaller c
+  | ["stack", _arch, base, instr, ptr, init, adds, known, al, callee, fwd, mem, sp, leaf, strip] =>
+    match parseWalkArgs base instr ptr init adds known al callee fwd mem,
+          (stripKey "sp:" sp).bind optNat, stripKey "leaf:" leaf, stripKey "strip:" strip with
+    | some (r, base, w), some sp, some leaf, some strip =>
+      let strip? : Option (Option UInt64) :=
+        if strip == "-" then some none else
+        match optNat strip with
+        | some m => if m ≤ U64MAX then some (some (UInt64.ofNat m)) else none
+        | none => none
+      match strip?, leaf == "0" || leaf == "1" with
+      | some strip, true =>
+        match walkFrameO r base w with
+        | .panic _ => "PANIC"
+        | .ok res =>
+          match stackGlue w sp (leaf == "1") strip res with
+          | none => "nocfi"
+          | some c => showCaller c
+      | _, _ => "bad-op"
+    | _, _, _, _ => "bad-op"
   | _ => "bad-op"
 
 end MdModel.Cfi
